@@ -29,6 +29,9 @@ var (
 	realErr    error
 )
 
+// realDir: the directory of the real signer's key files, removed when the process ends
+var realDir string
+
 // getRealSigner: a crypki.Signer whose only endpoint is a closed local port
 func getRealSigner() (csr.Signer, error) {
 	realOnce.Do(func() {
@@ -37,6 +40,7 @@ func getRealSigner() (csr.Signer, error) {
 			realErr = err
 			return
 		}
+		realDir = dir
 		caKey, _ := ecdsa.GenerateKey(elliptic.P256(), rand.Reader)
 		caT := &x509.Certificate{SerialNumber: big.NewInt(1), Subject: pkix.Name{CommonName: "verif ca"}, NotBefore: time.Now().Add(-time.Hour),
 			NotAfter: time.Now().Add(24 * time.Hour), IsCA: true, BasicConstraintsValid: true, KeyUsage: x509.KeyUsageCertSign}
